@@ -7,6 +7,7 @@ import (
 	"go/types"
 	"math"
 	"math/bits"
+	"strings"
 	"unicode/utf8"
 
 	"golang.org/x/tools/go/ssa"
@@ -306,8 +307,17 @@ func (ex *Exec) intBinop(op token.Token, t types.Type, x, y Int) Value {
 	}
 	switch op {
 	case token.ADD:
+		if y.T == nil {
+			return SInt(addConst(x.T, y.C, int(w)))
+		}
+		if x.T == nil {
+			return SInt(addConst(y.T, x.C, int(w)))
+		}
 		return SInt(Bin("bvadd", s, a, b))
 	case token.SUB:
+		if y.T == nil {
+			return SInt(addConst(x.T, -y.C, int(w)))
+		}
 		return SInt(Bin("bvsub", s, a, b))
 	case token.MUL:
 		return SInt(Bin("bvmul", s, a, b))
@@ -351,6 +361,29 @@ func (ex *Exec) intBinop(op token.Token, t types.Type, x, y Int) Value {
 		return cmp("bvuge", "bvsge")
 	}
 	panic("int binop " + op.String())
+}
+
+// addConst builds t + c, folding nested constant additions:
+// (t0 + c1) + c2 = t0 + (c1+c2).
+func addConst(t *Term, c uint64, w int) *Term {
+	c &= mask(uint8(w))
+	const pre = "(bvadd "
+	if strings.HasPrefix(t.S, pre) && w%4 == 0 {
+		// "(bvadd X #x....)"
+		i := strings.LastIndex(t.S, " #x")
+		if i > 0 && i+3+w/4+1 == len(t.S) {
+			var c0 uint64
+			if _, err := fmt.Sscanf(t.S[i+3:len(t.S)-1], "%x", &c0); err == nil {
+				base := &Term{t.S[len(pre):i], SBV(w)}
+				c = (c + c0) & mask(uint8(w))
+				t = base
+			}
+		}
+	}
+	if c == 0 {
+		return t
+	}
+	return Bin("bvadd", SBV(w), t, BVConst(c, w))
 }
 
 func (ex *Exec) shift(op token.Token, signed bool, x, y Int) Value {
